@@ -412,8 +412,44 @@ def r4(run, ctx):
             a = s.call.args[2] if len(s.call.args) > 2 else None
             run.check('R4', isinstance(a, ast.Name) and a.id == 'mid',
                       'the id is handed to _dispatch_callback', g, s.node.ast)
+    # the cast flag, once known, is handed to every reply call (a cast must never be answered)
+    casts = [n_ for n_ in ctx.live_nodes(d) if n_.kind == 'stmt' and isinstance(n_.ast, ast.Assign)
+             and any(isinstance(t, ast.Name) and t.id == 'cast' for t in n_.ast.targets)]
+    run.need('R4', casts, "cast flag derived from the request's msg_type in dispatch", d,
+             'cast messages are answered like ordinary requests')
+    for s in ctx.sites_calling(d, [C + 'send_error', C + 'send_ok', C + 'send_response']):
+        if casts and cfg.dominates(casts, s.node):
+            v = astq.kwarg(s.call, 'cast')
+            run.check('R4', isinstance(v, ast.Name) and v.id == 'cast',
+                      'the reply call is told whether the request was a cast', d, s.node.ast,
+                      'this reply path does not pass cast=cast: a cast (fire-and-forget) message '
+                      'taking it is answered, and the stray reply is taken for the answer to '
+                      "the sender's next request")
+    for s in ctx.sites_calling(d, [C + '_dispatch_callback']):
+        a = s.call.args[3] if len(s.call.args) > 3 else astq.kwarg(s.call, 'cast')
+        run.check('R4', isinstance(a, ast.Name) and a.id == 'cast',
+                  'the cast flag is handed to _dispatch_callback', d, s.node.ast)
+    for g_key in (C + '_dispatch_callback', C + '_dispatch_callback_future'):
+        g = ctx.fn(g_key)
+        for s in ctx.sites_calling(g, [C + 'send_error', C + 'send_ok', C + '_dispatch_callback']):
+            if any(t.key == C + '_dispatch_callback' for t in s.targets):
+                a = s.call.args[3] if len(s.call.args) > 3 else astq.kwarg(s.call, 'cast')
+            else:
+                a = astq.kwarg(s.call, 'cast')
+            run.check('R4', isinstance(a, ast.Name) and a.id == 'cast',
+                      '%s passes the cast flag on' % g.qualname, g, s.node.ast,
+                      'a completion reply ignores the cast flag')
+    sr = ctx.fn(C + 'send_response')
+    csr = ctx.cfg(sr)
+    sends = [n_ for n_ in ctx.live_nodes(sr) if any(astq.call_last(c) == 'send' for c in n_.calls())]
+    from sa.idioms import reach_under as _ru
+    rr = _ru(csr, csr.entry, lambda e: True if norm_text(e) == 'cast' else None)
+    run.check('R4', not any(n_.id in rr for n_ in sends), 'send_response sends nothing for a cast',
+              sr, sr.node, 'cast messages are answered')
     for c in [c for nd in ctx.live_nodes(d) for c in nd.calls()
               if dotted(c.func) in ('functools.partial', 'partial')]:
+        run.check('R4', len(c.args) > 4 and isinstance(c.args[4], ast.Name) and c.args[4].id == 'cast',
+                  'the cast flag is bound into the completion callback', d, c)
         run.check('R4', len(c.args) > 3 and isinstance(c.args[3], ast.Name) and c.args[3].id == 'mid',
                   'the id is bound into the completion callback', d, c)
     run.count('R4', n, 5, 'reply call sites in the controller')
